@@ -173,11 +173,11 @@ Fixpoint all_text (P : wsv -> bool) (n : node) : bool :=
 Fixpoint all_texts (P : wsv -> bool) (l : list node) : bool :=
   match l with [] => true | k :: r => all_text P k && all_texts P r end.
 
-(* every inline box of the tree is in normal flow *)
+(* every inline box of the tree is in normal flow (hence not a running element) *)
 Fixpoint inl_flow (n : node) : bool :=
   match n with
   | T _ _ _ => true
-  | I flow _ kids => flow && (fix go (l : list node) := match l with [] => true | k :: r => inl_flow k && go r end) kids
+  | I flow run kids => flow && negb run && (fix go (l : list node) := match l with [] => true | k :: r => inl_flow k && go r end) kids
   | O _ => true
   end.
 Fixpoint inl_flows (l : list node) : bool :=
